@@ -1,4 +1,4 @@
-"""A small Python -> Lean translator for the pure integer/list functions of /repo.
+"""A small Python -> Lean translator for the pure integer / list / string functions of /repo.
 
 It re-reads the function's source with `ast` on every run and writes a Lean definition into
 lean/OQ/Generated/Translated.lean; theorems in OQ/Props state that the translated definition equals the
@@ -6,29 +6,75 @@ hand-written model (so an edit to the Python function changes the generated defi
 theorem at build time – a proof obligation tied to what the code says now).
 
 Supported subset (anything else raises TranslateError and the table is written as an error marker):
-  statements : `x = e` (single Name target), `return e`, `if c: … else: …` whose branches end in `return`
-  expressions: int constants, names, unary -, + - * // % ** on ints (Python floor semantics: Int.fdiv / Int.fmod),
-               comparisons, and/or/not, conditional expressions, tuples (heterogeneous result tuples become Lean
-               pairs, homogeneous int tuples/lists become `List Int`), `k * (x,)` / `(x,) * k` repetition,
-               list/tuple `+`, `len`, `list`, `tuple`, `range(n)`, `min`, `max`, list comprehensions with an optional
-               `if`, `x in xs` / `x not in xs`, `xs[i]` (documented domain: 0 <= i < len(xs)).
-Types are given per function in SPECS (Python is untyped); the translator checks them structurally.
+  statements : `x = e`, `x += e` (single Name target), `xs[i] = e`, `xs[i] += e`, `xs.append(e)`, `return e`,
+               `if c: … [else: …]` (branches may `return` or fall through),
+               `for v in <list expr>: body` where the body only (re)assigns variables that already exist before the
+               loop (no return / break / continue inside) – translated to `List.foldl` over the tuple of those
+               variables, `raise …` / `sys.exit(…)` (only with partial=True: the function then returns `Option`,
+               `none` standing for "the Python raises / exits"), docstrings and bare string expressions.
+  expressions: int / bool / str constants, names, unary - and not, + - * // % ** on ints (Python floor semantics:
+               Int.fdiv / Int.fmod), `&`, `|`, `>>` on ints (documented domain: non-negative operands, except the
+               idiom `x & -x`, translated to `Py.lowbit x`, domain x > 0), comparisons (a comparison between a str
+               and an int is `False`, as in Python), and/or/not, conditional expressions, tuples (heterogeneous
+               result tuples become Lean pairs, homogeneous int tuples/lists become `List Int`), `k * (x,)` /
+               `(x,) * k` repetition, list/tuple/str `+`, `len`, `list`, `tuple`, `range(n)`, `range(a, b)`, `min`,
+               `max`, `sum`, `pow`, `int(char)`, `int(str, 2)`, `str(int)`, `bin`, `map(str, xs)`, `np.zeros(k)` (a list
+               of k zeros; only ever converted with `int(x)`), `s.zfill(n)`, `sep.join(xs)`, list comprehensions and
+               generator expressions with an optional `if`, `x in xs` / `x not in xs`, `xs[i]` (documented domain:
+               0 <= i < len(xs)), slices `xs[a:]`, `xs[:b]`, `xs[a:b]` (documented domain: non-negative bounds) and
+               `xs[::-1]`.
+Python built-ins are rendered through the prelude `OQ/Exec/Py.lean`, which is itself compared with CPython on every
+run (harness/prelude_check.py).  Types are given per function in SPECS (Python is untyped); the translator checks
+them structurally.  A python `str` is a Lean `List Char`; iterating over it yields `Char`.
 """
 import ast
 import inspect
 import textwrap
 
-INT, BOOL, LIST = "Int", "Bool", "List Int"
+INT, BOOL, CHAR = "Int", "Bool", "Char"
+LIST = "List Int"
+STR = "List Char"
+LSTR = "List (List Char)"
+
+
+def is_list(t):
+    return t.startswith("List ")
+
+
+def elem(t):
+    e = t[len("List "):]
+    if e.startswith("(") and e.endswith(")"):
+        e = e[1:-1]
+    return e
+
+
+def list_of(t):
+    return f"List ({t})" if " " in t else f"List {t}"
+
+
+DEFAULTS = {INT: "0", CHAR: "'0'", BOOL: "false"}
 
 
 class TranslateError(Exception):
     pass
 
 
+def char_lit(c):
+    if c == "'":
+        return "'\\''"
+    if c == "\\":
+        return "'\\\\'"
+    return f"'{c}'"
+
+
 class T:
-    def __init__(self, env, ret):
+    def __init__(self, env, ret, partial=False):
         self.env = dict(env)
         self.ret = ret
+        self.partial = partial
+
+    def sub(self, extra):
+        return T({**self.env, **extra}, self.ret, self.partial)
 
     # ---- expressions: returns (lean_text, type)
     def e(self, n):
@@ -37,6 +83,8 @@ class T:
                 return ("true" if n.value else "false"), BOOL
             if isinstance(n.value, int):
                 return f"({n.value} : Int)", INT
+            if isinstance(n.value, str):
+                return "([" + ", ".join(char_lit(c) for c in n.value) + "] : List Char)", STR
             raise TranslateError(f"constant {n.value!r}")
         if isinstance(n, ast.Name):
             if n.id not in self.env:
@@ -50,47 +98,9 @@ class T:
                 return f"(!{v})", BOOL
             raise TranslateError("unary op")
         if isinstance(n, ast.BinOp):
-            a, ta = self.e(n.left)
-            b, tb = self.e(n.right)
-            op = n.op
-            if ta == INT and tb == INT:
-                if isinstance(op, ast.Add):
-                    return f"({a} + {b})", INT
-                if isinstance(op, ast.Sub):
-                    return f"({a} - {b})", INT
-                if isinstance(op, ast.Mult):
-                    return f"({a} * {b})", INT
-                if isinstance(op, ast.FloorDiv):
-                    return f"(Int.fdiv {a} {b})", INT
-                if isinstance(op, ast.Mod):
-                    return f"(Int.fmod {a} {b})", INT
-                if isinstance(op, ast.Pow):
-                    return f"({a} ^ (Int.toNat {b}))", INT
-            if isinstance(op, ast.Add) and ta == LIST and tb == LIST:
-                return f"({a} ++ {b})", LIST
-            if isinstance(op, ast.Mult) and {ta, tb} == {INT, LIST}:
-                k, l = (a, b) if ta == INT else (b, a)
-                return f"((List.replicate (Int.toNat {k}) {l}).flatten)", LIST
-            raise TranslateError(f"binop {ast.dump(op)} on {ta},{tb}")
+            return self.binop(n)
         if isinstance(n, ast.Compare):
-            if len(n.ops) != 1:
-                raise TranslateError("chained comparison")
-            a, ta = self.e(n.left)
-            b, tb = self.e(n.comparators[0])
-            op = n.ops[0]
-            if ta == INT and tb == INT:
-                sym = {ast.Eq: "==", ast.NotEq: "!=", ast.Lt: "<", ast.LtE: "≤", ast.Gt: ">", ast.GtE: "≥"}.get(type(op))
-                if sym in ("==", "!="):
-                    return f"({a} {sym} {b})", BOOL
-                if sym:
-                    return f"(decide ({a} {sym} {b}))", BOOL
-            if ta == INT and tb == LIST and isinstance(op, ast.In):
-                return f"({b}.contains {a})", BOOL
-            if ta == INT and tb == LIST and isinstance(op, ast.NotIn):
-                return f"(!({b}.contains {a}))", BOOL
-            if ta == LIST and tb == LIST and isinstance(op, (ast.Eq, ast.NotEq)):
-                return f"({a} {'==' if isinstance(op, ast.Eq) else '!='} {b})", BOOL
-            raise TranslateError("comparison")
+            return self.compare(n)
         if isinstance(n, ast.BoolOp):
             parts = [self.e(v) for v in n.values]
             if any(t != BOOL for _, t in parts):
@@ -106,82 +116,331 @@ class T:
             return f"(if {c} then {a} else {b})", ta
         if isinstance(n, (ast.Tuple, ast.List)):
             parts = [self.e(v) for v in n.elts]
-            if all(t == INT for _, t in parts):
-                return "[" + ", ".join(p for p, _ in parts) + "]", LIST
+            if not parts:
+                raise TranslateError("empty literal (type unknown)")
+            if all(t == parts[0][1] for _, t in parts) and parts[0][1] in (INT, CHAR, STR):
+                return "[" + ", ".join(p for p, _ in parts) + "]", list_of(parts[0][1])
             return "(" + ", ".join(p for p, _ in parts) + ")", " × ".join(t for _, t in parts)
-        if isinstance(n, ast.Call) and isinstance(n.func, ast.Name):
-            f = n.func.id
-            args = [self.e(a) for a in n.args]
-            if f == "len" and args[0][1] == LIST:
-                return f"(({args[0][0]}.length : Nat) : Int)", INT
-            if f in ("list", "tuple") and args[0][1] == LIST:
-                return args[0]
-            if f == "range" and len(args) == 1 and args[0][1] == INT:
-                return f"((List.range (Int.toNat {args[0][0]})).map Int.ofNat)", LIST
-            if f in ("min", "max") and len(args) == 2 and all(t == INT for _, t in args):
-                return f"({f} {args[0][0]} {args[1][0]})", INT
-            if f == "int" and args[0][1] == INT:
-                return args[0]
-            raise TranslateError(f"call {f}")
-        if isinstance(n, ast.ListComp) or isinstance(n, ast.GeneratorExp):
-            if len(n.generators) != 1 or not isinstance(n.generators[0].target, ast.Name):
-                raise TranslateError("comprehension shape")
-            g = n.generators[0]
-            it, tit = self.e(g.iter)
-            if tit != LIST:
-                raise TranslateError("comprehension over non-list")
-            v = g.target.id
-            sub = T({**self.env, v: INT}, self.ret)
-            src = it
-            for cond in g.ifs:
-                c, tc = sub.e(cond)
-                if tc != BOOL:
-                    raise TranslateError("comprehension filter")
-                src = f"({src}.filter (fun {v} => {c}))"
-            elt, te = sub.e(n.elt)
-            if te != INT:
-                raise TranslateError("comprehension element")
-            return f"({src}.map (fun {v} => {elt}))", LIST
+        if isinstance(n, ast.Call):
+            return self.call(n)
+        if isinstance(n, (ast.ListComp, ast.GeneratorExp)):
+            return self.comprehension(n)
         if isinstance(n, ast.Subscript):
-            a, ta = self.e(n.value)
-            i, ti = self.e(n.slice)
-            if ta == LIST and ti == INT:
-                return f"({a}.getD (Int.toNat {i}) 0)", INT
-            raise TranslateError("subscript")
+            return self.subscript(n)
         raise TranslateError(f"expression {type(n).__name__}")
 
-    # ---- statements: returns lean text of an expression of type self.ret
-    def block(self, stmts):
+    def binop(self, n):
+        op = n.op
+        # the idiom  x & -x  (lowest set bit of a positive int)
+        if isinstance(op, ast.BitAnd) and isinstance(n.right, ast.UnaryOp) and isinstance(n.right.op, ast.USub) \
+                and ast.dump(n.right.operand) == ast.dump(n.left):
+            a, ta = self.e(n.left)
+            if ta == INT:
+                return f"(OQ.Py.lowbit {a})", INT
+        a, ta = self.e(n.left)
+        b, tb = self.e(n.right)
+        if ta == INT and tb == INT:
+            if isinstance(op, ast.Add):
+                return f"({a} + {b})", INT
+            if isinstance(op, ast.Sub):
+                return f"({a} - {b})", INT
+            if isinstance(op, ast.Mult):
+                return f"({a} * {b})", INT
+            if isinstance(op, ast.FloorDiv):
+                return f"(Int.fdiv {a} {b})", INT
+            if isinstance(op, ast.Mod):
+                return f"(Int.fmod {a} {b})", INT
+            if isinstance(op, ast.Pow):
+                return f"({a} ^ (Int.toNat {b}))", INT
+            if isinstance(op, ast.BitAnd):
+                return f"(OQ.Py.land {a} {b})", INT
+            if isinstance(op, ast.BitOr):
+                return f"(OQ.Py.lor {a} {b})", INT
+            if isinstance(op, ast.RShift):
+                return f"(OQ.Py.shr {a} {b})", INT
+        if isinstance(op, ast.Add) and ta == tb and is_list(ta):
+            return f"({a} ++ {b})", ta
+        if isinstance(op, ast.Mult) and {ta, tb} == {INT, LIST}:
+            k, l = (a, b) if ta == INT else (b, a)
+            return f"((List.replicate (Int.toNat {k}) {l}).flatten)", LIST
+        raise TranslateError(f"binop {type(op).__name__} on {ta},{tb}")
+
+    def compare(self, n):
+        if len(n.ops) != 1:
+            raise TranslateError("chained comparison")
+        a, ta = self.e(n.left)
+        b, tb = self.e(n.comparators[0])
+        op = n.ops[0]
+        if ta == INT and tb == INT:
+            sym = {ast.Eq: "==", ast.NotEq: "!=", ast.Lt: "<", ast.LtE: "≤", ast.Gt: ">", ast.GtE: "≥"}.get(type(op))
+            if sym in ("==", "!="):
+                return f"({a} {sym} {b})", BOOL
+            if sym:
+                return f"(decide ({a} {sym} {b}))", BOOL
+        if isinstance(op, (ast.Eq, ast.NotEq)):
+            neg = isinstance(op, ast.NotEq)
+            # a one-character str compared with a str constant
+            if ta == CHAR and tb == STR:
+                a, ta = f"[{a}]", STR
+            if tb == CHAR and ta == STR:
+                b, tb = f"[{b}]", STR
+            if ta == tb and (ta in (CHAR, BOOL) or is_list(ta)):
+                return f"({a} {'!=' if neg else '=='} {b})", BOOL
+            strs, nums = (CHAR, STR), (INT,)
+            if (ta in strs and tb in nums) or (ta in nums and tb in strs):
+                return ("true" if neg else "false"), BOOL  # Python: a str never equals an int
+        if isinstance(op, (ast.In, ast.NotIn)) and is_list(tb) and elem(tb) == ta:
+            c = f"({b}.contains {a})"
+            return (f"(!{c})" if isinstance(op, ast.NotIn) else c), BOOL
+        raise TranslateError(f"comparison {type(op).__name__} on {ta},{tb}")
+
+    def call(self, n):
+        if n.keywords:
+            raise TranslateError("keyword arguments")
+        if isinstance(n.func, ast.Attribute):
+            recv, meth = n.func.value, n.func.attr
+            # np.zeros(k)
+            if isinstance(recv, ast.Name) and recv.id == "np" and meth == "zeros" and len(n.args) == 1:
+                k, tk = self.e(n.args[0])
+                if tk == INT:
+                    return f"(List.replicate (Int.toNat {k}) (0 : Int))", LIST
+            r, tr_ = self.e(recv)
+            args = [self.e(a) for a in n.args]
+            if meth == "zfill" and tr_ == STR and len(args) == 1 and args[0][1] == INT:
+                return f"(OQ.Py.zfill {r} {args[0][0]})", STR
+            if meth == "join" and tr_ == STR and len(args) == 1:
+                x, tx = args[0]
+                if tx == LSTR:
+                    return f"(OQ.Py.join {r} {x})", STR
+                if tx == STR:  # joining the characters of a string
+                    return f"(OQ.Py.join {r} ({x}.map (fun c => [c])))", STR
+            raise TranslateError(f"method {meth} on {tr_}")
+        if not isinstance(n.func, ast.Name):
+            raise TranslateError("call of a non-name")
+        f = n.func.id
+        if f == "map" and len(n.args) == 2 and isinstance(n.args[0], ast.Name) and n.args[0].id == "str":
+            x, tx = self.e(n.args[1])
+            if tx == LIST:
+                return f"({x}.map OQ.Py.strOfInt)", LSTR
+            raise TranslateError("map(str, non-int-list)")
+        args = [self.e(a) for a in n.args]
+        ts = [t for _, t in args]
+        if f == "len" and len(args) == 1 and is_list(ts[0]):
+            return f"(({args[0][0]}.length : Nat) : Int)", INT
+        if f in ("list", "tuple") and len(args) == 1 and is_list(ts[0]):
+            return args[0]
+        if f == "range" and ts == [INT]:
+            return f"((List.range (Int.toNat {args[0][0]})).map Int.ofNat)", LIST
+        if f == "range" and ts == [INT, INT]:
+            a, b = args[0][0], args[1][0]
+            return f"((List.range (Int.toNat ({b} - {a}))).map (fun k => {a} + Int.ofNat k))", LIST
+        if f in ("min", "max") and ts == [INT, INT]:
+            return f"({f} {args[0][0]} {args[1][0]})", INT
+        if f == "sum" and ts == [LIST]:
+            return f"(OQ.Py.sum {args[0][0]})", INT
+        if f == "pow" and ts == [INT, INT]:
+            return f"({args[0][0]} ^ (Int.toNat {args[1][0]}))", INT
+        if f == "int" and ts == [INT]:
+            return args[0]
+        if f == "int" and ts == [CHAR]:
+            return f"(OQ.Py.charDigit {args[0][0]})", INT
+        if f == "int" and ts == [STR, INT] and args[1][0] == "(2 : Int)":
+            return f"(OQ.Py.intBase2 {args[0][0]})", INT
+        if f == "str" and ts == [INT]:
+            return f"(OQ.Py.strOfInt {args[0][0]})", STR
+        if f == "bin" and ts == [INT]:
+            return f"(OQ.Py.bin {args[0][0]})", STR
+        raise TranslateError(f"call {f}({', '.join(ts)})")
+
+    def comprehension(self, n):
+        if len(n.generators) != 1 or not isinstance(n.generators[0].target, ast.Name):
+            raise TranslateError("comprehension shape")
+        g = n.generators[0]
+        it, tit = self.e(g.iter)
+        if not is_list(tit):
+            raise TranslateError("comprehension over non-list")
+        v = g.target.id
+        sub = self.sub({v: elem(tit)})
+        src = it
+        for cond in g.ifs:
+            c, tc = sub.e(cond)
+            if tc != BOOL:
+                raise TranslateError("comprehension filter")
+            src = f"({src}.filter (fun {v} => {c}))"
+        elt, te = sub.e(n.elt)
+        if te not in (INT, CHAR, STR):
+            raise TranslateError("comprehension element")
+        return f"({src}.map (fun {v} => {elt}))", list_of(te)
+
+    def subscript(self, n):
+        a, ta = self.e(n.value)
+        if not is_list(ta):
+            raise TranslateError("subscript of non-list")
+        s = n.slice
+        if isinstance(s, ast.Slice):
+            if s.step is not None:
+                st = s.step
+                if (s.lower is None and s.upper is None and isinstance(st, ast.UnaryOp) and isinstance(st.op, ast.USub)
+                        and isinstance(st.operand, ast.Constant) and st.operand.value == 1):
+                    return f"({a}.reverse)", ta
+                raise TranslateError("slice step")
+            lo = self.e(s.lower) if s.lower is not None else None
+            hi = self.e(s.upper) if s.upper is not None else None
+            if any(x is not None and x[1] != INT for x in (lo, hi)):
+                raise TranslateError("slice bound type")
+            if lo and hi:
+                return f"(OQ.Py.slice {a} {lo[0]} {hi[0]})", ta
+            if lo:
+                return f"(OQ.Py.sliceFrom {a} {lo[0]})", ta
+            if hi:
+                return f"(OQ.Py.sliceTo {a} {hi[0]})", ta
+            return a, ta
+        i, ti = self.e(s)
+        te = elem(ta)
+        if ti == INT and te in DEFAULTS:
+            return f"({a}.getD (Int.toNat {i}) {DEFAULTS[te]})", te
+        raise TranslateError("subscript")
+
+    # ---- statements: returns lean text of an expression of type self.ret (or of `tail`'s type when falling through)
+    def wrap(self, v):
+        return f"(some {v})" if self.partial else v
+
+    def block(self, stmts, tail=None):
+        """tail: None (falling off the end is an error) or a function env -> lean text used when the block ends"""
         if not stmts:
-            raise TranslateError("block falls off without return")
+            if tail is None:
+                raise TranslateError("block falls off without return")
+            return tail(self)
         s, rest = stmts[0], stmts[1:]
         if isinstance(s, ast.Expr) and isinstance(s.value, ast.Constant) and isinstance(s.value.value, str):
-            return self.block(rest)  # docstring
+            return self.block(rest, tail)  # docstring
         if isinstance(s, ast.Return):
+            if tail is not None:
+                raise TranslateError("return inside a loop body")
             v, t = self.e(s.value)
             if t != self.ret:
                 raise TranslateError(f"return type {t}, declared {self.ret}")
-            return v
+            return self.wrap(v)
+        if isinstance(s, ast.Raise) or _is_sys_exit(s):
+            if not self.partial:
+                raise TranslateError("raise / sys.exit in a function not declared partial")
+            if tail is not None:
+                raise TranslateError("raise inside a loop body")
+            return "none"
         if isinstance(s, ast.Assign) and len(s.targets) == 1 and isinstance(s.targets[0], ast.Name):
             v, t = self.e(s.value)
             name = s.targets[0].id
-            sub = T({**self.env, name: t}, self.ret)
-            return f"let {name} : {t} := {v}\n  {sub.block(rest)}"
+            return f"let {name} : {t} := {v}\n  {self.sub({name: t}).block(rest, tail)}"
+        if isinstance(s, ast.AugAssign) and isinstance(s.target, ast.Name):
+            name = s.target.id
+            v, t = self.binop(ast.BinOp(left=ast.Name(id=name, ctx=ast.Load()), op=s.op, right=s.value))
+            if name not in self.env or self.env[name] != t:
+                raise TranslateError("augmented assignment changes type")
+            return f"let {name} : {t} := {v}\n  {self.block(rest, tail)}"
+        if isinstance(s, (ast.Assign, ast.AugAssign)):
+            tgt = s.targets[0] if isinstance(s, ast.Assign) else s.target
+            if isinstance(tgt, ast.Subscript) and isinstance(tgt.value, ast.Name) and not isinstance(tgt.slice, ast.Slice):
+                name = tgt.value.id
+                if name not in self.env or not is_list(self.env[name]):
+                    raise TranslateError("item assignment to a non-list")
+                i, ti = self.e(tgt.slice)
+                if isinstance(s, ast.Assign):
+                    v, t = self.e(s.value)
+                else:
+                    v, t = self.binop(ast.BinOp(left=ast.Subscript(value=tgt.value, slice=tgt.slice, ctx=ast.Load()),
+                                                op=s.op, right=s.value))
+                if ti != INT or t != elem(self.env[name]):
+                    raise TranslateError("item assignment types")
+                return (f"let {name} : {self.env[name]} := {name}.set (Int.toNat {i}) {v}\n  "
+                        f"{self.block(rest, tail)}")
+        if isinstance(s, ast.Expr) and isinstance(s.value, ast.Call) and isinstance(s.value.func, ast.Attribute) \
+                and s.value.func.attr == "append" and isinstance(s.value.func.value, ast.Name):
+            name = s.value.func.value.id
+            v, t = self.e(s.value.args[0])
+            if name not in self.env or self.env[name] != list_of(t):
+                raise TranslateError("append type")
+            return f"let {name} : {self.env[name]} := {name} ++ [{v}]\n  {self.block(rest, tail)}"
         if isinstance(s, ast.If):
             c, tc = self.e(s.test)
             if tc != BOOL:
                 raise TranslateError("if test")
-            a = self.block(s.body + ([] if _returns(s.body) else rest))
-            b = self.block((s.orelse or []) + ([] if (s.orelse and _returns(s.orelse)) else rest))
+            a = self.block(s.body + ([] if _ends(s.body) else rest), tail)
+            b = self.block((s.orelse or []) + ([] if (s.orelse and _ends(s.orelse)) else rest), tail)
             return f"if {c} then\n  {a}\n  else\n  {b}"
+        if isinstance(s, ast.For) and isinstance(s.target, ast.Name) and not s.orelse:
+            it, tit = self.e(s.iter)
+            if not is_list(tit):
+                raise TranslateError("for over non-list")
+            v = s.target.id
+            state = sorted(_assigned(s.body))
+            if v in state:
+                raise TranslateError("loop variable reassigned")
+            for x in state:
+                if x not in self.env:
+                    raise TranslateError(f"loop assigns {x}, which does not exist before the loop")
+            if not state:
+                raise TranslateError("loop without effect")
+            tys = [self.env[x] for x in state]
+            st_ty = " × ".join(f"({t})" for t in tys)
+
+            def proj(k):
+                if len(state) == 1:
+                    return "st"
+                return "st" + ".2" * k + ("" if k == len(state) - 1 else ".1")
+
+            def tup(env_t):
+                for x, t in zip(state, tys):
+                    if env_t.env.get(x) != t:
+                        raise TranslateError(f"loop changes the type of {x}")
+                return "(" + ", ".join(state) + ")"
+
+            binds = "".join(f"let {x} : {t} := {proj(k)}\n    " for k, (x, t) in enumerate(zip(state, tys)))
+            body = self.sub({v: elem(tit)}).block(s.body, tail=tup)
+            after = "".join(f"let {x} : {t} := {proj(k)}\n  " for k, (x, t) in enumerate(zip(state, tys)))
+            return (f"let st : {st_ty} := {it}.foldl (fun (st : {st_ty}) ({v} : {elem(tit)}) =>\n    {binds}{body}) "
+                    f"({', '.join(state)})\n  {after}{self.block(rest, tail)}")
         raise TranslateError(f"statement {type(s).__name__}")
 
 
-def _returns(stmts):
-    return bool(stmts) and isinstance(stmts[-1], ast.Return)
+def _is_sys_exit(s):
+    return (isinstance(s, ast.Expr) and isinstance(s.value, ast.Call) and isinstance(s.value.func, ast.Attribute)
+            and s.value.func.attr == "exit" and isinstance(s.value.func.value, ast.Name)
+            and s.value.func.value.id == "sys")
 
 
-def translate_function(fn, lean_name, arg_types, ret):
+def _ends(stmts):
+    return bool(stmts) and (isinstance(stmts[-1], (ast.Return, ast.Raise)) or _is_sys_exit(stmts[-1]))
+
+
+def _assigned(stmts):
+    out = set()
+    for s in stmts:
+        for n in ast.walk(s):
+            if isinstance(n, (ast.Return, ast.Break, ast.Continue, ast.While)):
+                raise TranslateError(f"{type(n).__name__} inside a loop body")
+            if isinstance(n, ast.Assign):
+                for t in n.targets:
+                    out.add(_target_name(t))
+            elif isinstance(n, ast.AugAssign):
+                out.add(_target_name(n.target))
+            elif isinstance(n, ast.Call) and isinstance(n.func, ast.Attribute) and n.func.attr == "append" \
+                    and isinstance(n.func.value, ast.Name):
+                out.add(n.func.value.id)
+            elif isinstance(n, ast.For):
+                raise TranslateError("nested loop")
+    return out
+
+
+def _target_name(t):
+    if isinstance(t, ast.Name):
+        return t.id
+    if isinstance(t, ast.Subscript) and isinstance(t.value, ast.Name):
+        return t.value.id
+    raise TranslateError("assignment target")
+
+
+def translate_function(fn, lean_name, arg_types, ret, partial=False):
+    fn = getattr(fn, "__wrapped__", fn)  # functools.lru_cache & co.
     src = textwrap.dedent(inspect.getsource(fn))
     node = ast.parse(src).body[0]
     if not isinstance(node, ast.FunctionDef):
@@ -190,7 +449,8 @@ def translate_function(fn, lean_name, arg_types, ret):
     if len(names) != len(arg_types):
         raise TranslateError("arity")
     env = dict(zip(names, arg_types))
-    body = T(env, ret).block(node.body)
+    body = T(env, ret, partial).block(node.body)
     binders = " ".join(f"({n} : {t})" for n, t in zip(names, arg_types))
     where = f"{inspect.getsourcefile(fn).split('/src/')[-1]}:{fn.__name__}"
-    return f"/-- translated from `{where}` -/\ndef {lean_name} {binders} : {ret} :=\n  {body}\n"
+    rt = f"Option ({ret})" if partial else ret
+    return f"/-- translated from `{where}` -/\ndef {lean_name} {binders} : {rt} :=\n  {body}\n"
